@@ -3,8 +3,11 @@ worker pools."""
 import hashlib, json, multiprocessing, os, sys, time, traceback
 
 VERIF = os.path.dirname(os.path.dirname(os.path.abspath(__file__)))
-EVIDENCE_DIR = os.path.join(VERIF, "evidence")
-REPLAY_DIR = os.path.join(VERIF, "replays")
+# The two overrides exist for tools_seeded.py / seeded/own/run.py, which run the checks against a deliberately
+# broken tree and must not overwrite the committed evidence.
+EVIDENCE_DIR = os.environ.get("VERIF_EVIDENCE_DIR", os.path.join(VERIF, "evidence"))
+REPLAY_DIR = os.environ.get("VERIF_REPLAY_DIR", os.path.join(VERIF, "replays"))
+MAX_REPORTED = 25
 KNOWN_FILE = os.path.join(VERIF, "known_findings.json")
 
 
@@ -103,6 +106,9 @@ def finish(pid, tier, seed, ev, rule, t0, level="exploration", exhaustive=None, 
         if sig in seen:
             continue
         seen.add(sig)
+        rc = 1
+        if len(lines) >= MAX_REPORTED:
+            continue            # counted in the evidence; 25 replay files are enough to work from
         path = write_replay(pid, v)
         lines.append("VIOLATION property=%s replay=%s" % (pid, path))
         sys.stderr.write("  %s: %s\n" % (pid, v.get("reason", "")[:500]))
